@@ -779,6 +779,12 @@ def c18(tier, hook=None):
                 for entry in ("attr", "derive"):
                     cases.append((named, 0, True, entry, where, bounds))
                     mods.append((len(cases) - 1, rf.deref_module(len(cases) - 1, named, 0, True, entry, where, bounds)))
+    # the two traits requested by two stacked, path-spelled attribute-macro invocations
+    for named in (False, True):
+        for generic in (False, True):
+            for bounds in (None, "shared_empty"):
+                cases.append((named, 0, generic, "path2", generic, bounds))
+                mods.append((len(cases) - 1, rf.deref_module(len(cases) - 1, named, 0, generic, "path2", generic, bounds)))
     # field names of other lexical kinds: raw keywords (`r#type` must stay raw in `self.r#type`), a name the generator uses itself
     for fnm in ("r#type", "r#fn", "r#match", "r#box", "r#self_", "__self", "target", "deref") if not hook else ():
         for generic in (False, True):
